@@ -614,6 +614,23 @@ fn strat_net(_t: Tier) -> BoxedStrategy<NetCase> {
         .boxed()
 }
 
+fn fuzz_case(mut c: Case) -> Case {
+    let h = |s: &str| crate::run::hash_str(s) as usize;
+    let schemes = ["amqp", "amqps", "amqp", "amqps", "AMQP", "http", "amqpx"];
+    c.scheme = schemes[h(&c.scheme) % schemes.len()].to_string();
+    let hosts = ["localhost", "127.0.0.1", "example.com", "[::1]"];
+    c.host = c.host.as_ref().map(|x| hosts[h(x) % hosts.len()].to_string());
+    if c.port == Some(0) {
+        c.port = Some(1);
+    }
+    if c.scheme == "http" && c.host.is_none() {
+        c.host = Some("example.com".into());
+    }
+    c.extra_segments.truncate(3);
+    c.params.truncate(5);
+    c
+}
+
 pub fn parts() -> Vec<Box<dyn PartDyn>> {
     vec![
         Box::new(Part::<Case> {
@@ -626,6 +643,7 @@ pub fn parts() -> Vec<Box<dyn PartDyn>> {
             enumerate: None,
             shrink_budget: 3000,
             confirm_runs: 1,
+            fuzz: Some(fuzz_case),
         }),
         Box::new(Part::<NetCase> {
             name: "loopback",
@@ -637,6 +655,7 @@ pub fn parts() -> Vec<Box<dyn PartDyn>> {
             enumerate: None,
             shrink_budget: 60,
             confirm_runs: 2,
+            fuzz: None,
         }),
     ]
 }
